@@ -454,6 +454,38 @@ func genNasMessage(b *strings.Builder, m *nasMsg, types map[string]*nasIEType) {
 	if len(opts) > 1 {
 		fmt.Fprintf(b, "// prop: C08\nfunc vcLemma_rt_%s_all(%s) {\n%s}\n\n", m.Name, ps, call(func(int) string { return "true" }))
 	}
+	// boundary lengths of the IEs kept in a fixed array: the capacity of the array, and zero (everything concrete but the contents)
+	for _, k := range opts {
+		t := types[m.Fields[k].Type]
+		if t.OctetN <= 0 || t.LenBits == 0 {
+			continue
+		}
+		for _, ln := range []int{t.OctetN, 0} {
+			var a []string
+			for _, i := range opts {
+				if i == k {
+					a = append(a, "true")
+				} else {
+					a = append(a, "false")
+				}
+			}
+			var as []string
+			for _, nm := range args {
+				if nm == fmt.Sprintf("p%dl", k) {
+					as = append(as, strconv.Itoa(ln))
+				} else {
+					as = append(as, nm)
+				}
+			}
+			var ps3 []string
+			for _, pd := range params {
+				if !strings.HasPrefix(pd, fmt.Sprintf("p%dl ", k)) {
+					ps3 = append(ps3, pd)
+				}
+			}
+			fmt.Fprintf(b, "// prop: C08\nfunc vcLemma_rt_%s_only_%s_len%d(%s) {\n\tvcRT_%s(%s)\n}\n\n", m.Name, m.Fields[k].Type, ln, strings.Join(ps3, ", "), m.Name, strings.Join(append(a, as...), ", "))
+		}
+	}
 	// every subset of the optional IEs (thorough tier; up to 10 optional IEs): the subset is the split parameter
 	if len(opts) > 1 && len(opts) <= 10 {
 		fmt.Fprintf(b, "// prop: C08\n// tier: thorough\n// split: subset 0..%d\nfunc vcLemma_rt_%s_subset(subset int, %s) {\n%s}\n\n", (1<<uint(len(opts)))-1, m.Name, ps,
